@@ -18,7 +18,31 @@ ABITAGS = ["none", "abi3", "cp38", "cp38m.cp38", "pypy310_pp73"]
 PLATTAGS = ["any", "any.whl", "manylinux_2_17_x86_64", "manylinux_2_17_x86_64.manylinux2014_x86_64", "win_amd64", "macosx_10_9_x86_64.macosx_11_0_arm64", "linux_x86_64"]
 
 
+def replay(fn):
+    """one file name (a solver counter-model) against the statement: accepted iff '.whl' + 5 or 6 dash fields, tags = last three fields"""
+    fails = []
+    fields = fn.split("-")
+    ok = fn.endswith(".whl") and len(fields) in (5, 6)
+    try:
+        got = parse_wheel_tags(fn)
+    except InvalidWheelFilename:
+        got = "InvalidWheelFilename"
+    except Exception as e:  # noqa: BLE001
+        got = repr(e)
+    if ok:
+        stem = fn[:-4].lower().split("-")
+        exp = [stem[-3].split("."), stem[-2].split("."), stem[-1].split(".")]
+        if got == "InvalidWheelFilename" or isinstance(got, str) or [list(x) for x in got] != exp:
+            fails.append({"check": "C18.wheel-tags", "input": {"filename": fn}, "observed": got if isinstance(got, str) else [list(x) for x in got], "expected": exp})
+    elif got != "InvalidWheelFilename":
+        fails.append({"check": "C18.wheel-accepts-invalid" if not isinstance(got, str) else "C18.wheel-wrong-exception", "input": {"filename": fn},
+                      "observed": got if isinstance(got, str) else [list(x) for x in got], "expected": "InvalidWheelFilename"})
+    return {"suite": "wheel_names", "evaluations": 1, "distinct_nontrivial": 1, "rule": "replay of one file name", "samples": [], "failures": fails, "n_failures": len(fails), "bound": "1 name"}
+
+
 def run(tier="quick", seed=0, arg=None):
+    if arg and "filename" in arg:
+        return replay(arg["filename"])
     fails, evals, distinct, samples = [], 0, 0, []
 
     def fail(check, inp, observed, expected):
